@@ -77,13 +77,15 @@ class RevRunner:
     def close(self):
         self.vdb.close()
 
-    def case(self, hist, sd, norm_order, rows, cmd, target, prior=None):
+    def case(self, hist, sd, norm_order, rows, cmd, target, prior=None, loaded_first=None):
         """runs the implementation now, queues the model.  `prior` = the commands already run on this
         very ScriptDirectory object (the model is stateless; a dependence on them is a finding)"""
         impl = rev_impl.command(sd, self.vdb, rows, cmd, target)
         c = {"revs": hist, "normOrder": norm_order, "rows": list(rows), "cmd": cmd}
         if prior:
             c["prior"] = [list(p) for p in prior]
+        if loaded_first is not None:
+            c["loadedFirst"] = loaded_first  # the first so many revisions were loaded, the others added in place
         if cmd == "stamp":
             c["targets"] = list(target)
         else:
@@ -116,25 +118,63 @@ def random_histories(ctx, rng, n_graphs, size_lo, size_hi, labels=True, collide=
         yield hist
 
 
+def live_norm_order(sd, hist):
+    m = sd.revision_map
+    revs = [m._revision_map[r["id"]] for r in hist]
+    return [{"id": r.revision, "order": list(r._normalized_resolved_dependencies)} for r in revs
+            if len(r._normalized_resolved_dependencies) > 1]
+
+
+def grow(sd, rev):
+    """ScriptDirectory.generate_revision's effect on the live map"""
+    import warnings
+
+    from . import revfake
+
+    with warnings.catch_warnings():
+        warnings.simplefilter("ignore")
+        sd.revision_map.add_revision(revfake.make_scripts([rev])[0])
+
+
 def drive_commands(ctx, runner, rng, hist, cmds_per_graph, cmd_weights, on_result, start_states=None):
-    """a command sequence from the empty database: every state is one the implementation reached"""
-    sd, info = rev_impl.load(hist)
+    """a command sequence from the empty database: every state is one the implementation reached.
+    In a fifth of the sequences the history *grows in place* between commands (new head revisions are
+    added to the live map through add_revision, as `alembic revision` does): the plans afterwards
+    must be those of the enlarged history (the model is stateless)."""
+    late = []
+    if len(hist) >= 4 and rng.random() < 0.2:
+        tips = [r for r in hist if not r["labels"] and not any(r["id"] in q["down"] or r["id"] in q["deps"] for q in hist)]
+        late = tips[-2:]
+    early = [r for r in hist if r not in late]
+    sd, info = rev_impl.load(early)
     if sd is None:
         return False
+    if late:
+        ctx.hist("graph", "grown-in-place")
+    hist_now = list(early)
     norm_order = info["normOrder"]
     rows = []
     prior = []
+    grow_at = {max(1, cmds_per_graph // 3): 0, max(2, 2 * cmds_per_graph // 3): 1}
     for k in range(cmds_per_graph):
+        if late and k in grow_at and grow_at[k] < len(late):
+            try:
+                grow(sd, late[grow_at[k]])
+                hist_now = hist_now + [late[grow_at[k]]]
+                norm_order = live_norm_order(sd, hist_now)
+            except Exception:  # noqa  (a refused addition is C17's business)
+                late = []
         cmd = rng.choices(["upgrade", "downgrade", "stamp"], weights=cmd_weights)[0]
         if not rows and cmd == "downgrade" and rng.random() < 0.8:
             cmd = "upgrade"
-        pool = targets_for(rng, hist, info, cmd, rows)
+        pool = targets_for(rng, hist_now, info, cmd, rows)
         target = rng.choice(pool)
         # the version table hands rows back in arbitrary order: shuffle what we pass in
         rows_in = list(rows)
         rng.shuffle(rows_in)
-        impl = runner.case(hist, sd, norm_order, rows_in, cmd, target, prior=prior)
-        prior.append((rows_in, cmd, target))
+        impl = runner.case(hist_now, sd, norm_order, rows_in, cmd, target, prior=prior,
+                           loaded_first=len(early) if late else None)
+        prior.append((rows_in, cmd, target, len(hist_now)) if late else (rows_in, cmd, target))
         if "err" not in impl and "stepErr" not in impl:
             rows = final_rows(impl, rows_in)
         if rng.random() < 0.08:
@@ -298,7 +338,10 @@ def judge(ctx, focus, collected, sds):
             ctx.hist("impl_error", impl["err"])
         tgt = c.get("target", c.get("targets"))
         ctx.hist("target_kind", target_kind(tgt))
-        sd = sds[json.dumps(c["revs"], sort_keys=True)]
+        key = json.dumps(c["revs"], sort_keys=True)
+        if key not in sds:  # histories that grew in place: a fresh map of what the live map holds now
+            sds[key] = rev_impl.load(c["revs"])[0]
+        sd = sds[key]
         h = {"revs": c["revs"]}
         if focus.prop == "C01" and "steps" in impl:
             plan = [s["rev"] for s in impl["steps"]]
